@@ -27,6 +27,9 @@ REPLAYS = {
         ('spin_rw_mutex', 'MCSpinRW', 'SpinRW_TryB.cfg', ['m'], ['lock_shared,upgrade,rel', 'try_lock_shared,rel', 'try_lock_shared,rel'], STD_MAP),
         ('queuing_rw_mutex', 'MCQueuingRW', 'QueuingRW_PU2.cfg', QRW_VARS, qrw([['lockR', 'up', 'rel'], ['lockR', 'up', 'rel']]), QRW_MAP),
         ('queuing_rw_mutex', 'MCQueuingRW', 'QueuingRW_PF2.cfg', QRW_VARS, qrw([['lockW', 'rel'], ['lockW', 'rel'], ['lockR', 'rel']]), QRW_MAP),
+        # a downgrade / an upgrade with conflicting requests queued behind the holder
+        ('queuing_rw_mutex', 'MCQueuingRW', 'QueuingRW_PD.cfg', QRW_VARS, qrw([['lockW', 'down', 'rel'], ['lockR', 'rel'], ['lockW', 'rel']]), QRW_MAP),
+        ('queuing_rw_mutex', 'MCQueuingRW', 'QueuingRW_PUW.cfg', QRW_VARS, qrw([['lockR', 'up', 'rel'], ['lockW', 'rel'], ['tryR', 'rel']]), QRW_MAP),
     ],
     'thorough': [
         ('spin_mutex', 'MCSpinMutex', 'SpinMutex_4.cfg', ['flag'], ['lock,rel,lock,rel', 'try_lock,rel,lock,rel', 'lock,rel,try_lock,rel', 'lock,rel'], STD_MAP),
@@ -42,9 +45,11 @@ MODELS = {
 EXCL = ['lock,rel,try_lock,rel', 'try_lock,rel,lock,rel', 'lock,rel,lock,rel']
 RWP1 = ['lock_shared,upgrade,rel', 'lock_shared,upgrade,rel', 'lock,downgrade,rel']
 RWP2 = ['try_lock,downgrade,rel,lock_shared,rel', 'try_lock_shared,upgrade,rel', 'lock,rel,lock_shared,upgrade,downgrade,rel', 'lock_shared,rel,lock,rel']
+RWP3 = ['try_lock_shared,rel,try_lock_shared,rel', 'try_lock_shared,rel,try_lock,rel', 'lock,rel,lock_shared,upgrade,rel', 'lock_shared,upgrade,rel']    # try operations racing acquisitions / an upgrade
 RANDOM = [('spin_mutex', EXCL), ('queuing_mutex', EXCL), ('mutex', EXCL), ('speculative_spin_mutex', EXCL),
           ('spin_rw_mutex', RWP1), ('spin_rw_mutex', RWP2), ('queuing_rw_mutex', RWP1), ('queuing_rw_mutex', RWP2),
-          ('rw_mutex', RWP1), ('rw_mutex', RWP2), ('speculative_spin_rw_mutex', RWP1), ('speculative_spin_rw_mutex', RWP2)]
+          ('rw_mutex', RWP1), ('rw_mutex', RWP2), ('speculative_spin_rw_mutex', RWP1), ('speculative_spin_rw_mutex', RWP2),
+          ('spin_rw_mutex', RWP3), ('queuing_rw_mutex', RWP3), ('rw_mutex', RWP3), ('speculative_spin_rw_mutex', RWP3)]
 
 
 def describe(lock):
